@@ -34,7 +34,9 @@ const (
 type sector = [sectorSize]byte
 
 type world struct {
-	hk, rk, ak, xk types.PrivateKey // host, renter, account, a stranger
+	hk, rk, ak, xk types.PrivateKey  // host (the contract's HostPublicKey), renter, account, a stranger
+	pk2            types.PrivateKey  // a foreign transport peer: authenticated by siamux, but not the contract's host
+	peerPrices     proto4.HostPrices // the price table of that peer, signed with pk2
 	hpk            types.PublicKey
 	cs             consensus.State
 	prices         proto4.HostPrices
@@ -54,7 +56,7 @@ func newWorld(r *rng.R) *world {
 		r.Bytes(seed)
 		return types.NewPrivateKeyFromSeed(seed)
 	}
-	w := &world{hk: key(), rk: key(), ak: key(), xk: key(), byRoot: map[types.Hash256]*sector{}, ids: map[types.Hash256]uint64{}}
+	w := &world{hk: key(), rk: key(), ak: key(), xk: key(), pk2: key(), byRoot: map[types.Hash256]*sector{}, ids: map[types.Hash256]uint64{}}
 	w.hpk = w.hk.PublicKey()
 	n, genesis := testutil.V2Network()
 	_ = genesis
@@ -74,6 +76,8 @@ func newWorld(r *rng.R) *world {
 		ValidUntil:      time.Now().Add(time.Hour),
 	}
 	w.prices.Signature = w.hk.SignHash(w.prices.SigHash())
+	w.peerPrices = w.prices
+	w.peerPrices.Signature = w.pk2.SignHash(w.peerPrices.SigHash())
 	w.badPrices = w.prices
 	w.badPrices.ValidUntil = time.Now().Add(-time.Hour)
 	w.badPrices.Signature = w.hk.SignHash(w.badPrices.SigHash())
@@ -199,7 +203,7 @@ func encode(o proto4.Object) []byte {
 
 // exchange runs call against a host that serves every stream of one fresh
 // siamux connection with handler. It reports a panic or a hang of the renter.
-func (w *world) exchange(handler func(s net.Conn, x *xchg), call func(ctx context.Context, t rhp4.TransportClient)) (x *xchg, panicked any, hung bool) {
+func (w *world) exchange(peer types.PrivateKey, handler func(s net.Conn, x *xchg), call func(ctx context.Context, t rhp4.TransportClient)) (x *xchg, panicked any, hung bool) {
 	x = &xchg{}
 	var wg sync.WaitGroup
 	wg.Add(1)
@@ -210,7 +214,7 @@ func (w *world) exchange(handler func(s net.Conn, x *xchg), call func(ctx contex
 			return
 		}
 		defer conn.Close()
-		m, err := mux.Accept(conn, ed25519.PrivateKey(w.hk))
+		m, err := mux.Accept(conn, ed25519.PrivateKey(peer))
 		if err != nil {
 			return
 		}
@@ -237,7 +241,7 @@ func (w *world) exchange(handler func(s net.Conn, x *xchg), call func(ctx contex
 	}()
 	ctx, cancel := context.WithTimeout(context.Background(), 10*time.Second)
 	defer cancel()
-	t, err := siamux.Dial(ctx, w.l.Addr().String(), w.hpk)
+	t, err := siamux.Dial(ctx, w.l.Addr().String(), peer.PublicKey())
 	if err != nil {
 		panic(fmt.Sprintf("dial: %v", err))
 	}
@@ -338,4 +342,50 @@ func swapRemove(roots []types.Hash256, idxDesc []uint64) []types.Hash256 {
 		out = out[:len(out)-1]
 	}
 	return out
+}
+
+// A foreign describes who sits on the other end of the transport in a scenario
+// and what it signs with. "" is the normal case: the transport peer is the
+// contract's host. Otherwise the transport peer is pk2 (PeerKey() differs from
+// contract.Revision.HostPublicKey) and
+//
+//	a: the price table is signed by the peer, the revision is signed by the peer
+//	b: the price table is the genuine host's (relayed), the revision is signed by the peer
+//	c: the price table is signed by the peer, the revision carries a genuine host signature
+//	d: genuine price table and genuine host signature through the foreign peer (a relay)
+type foreign string
+
+var foreignNames = map[foreign]string{
+	"a": "foreign-peer/peer-prices+peer-signature",
+	"b": "foreign-peer/host-prices+peer-signature",
+	"c": "foreign-peer/peer-prices+host-signature",
+	"d": "foreign-peer/host-prices+host-signature",
+}
+
+func (w *world) fPeer(f foreign) types.PrivateKey {
+	if f == "" {
+		return w.hk
+	}
+	return w.pk2
+}
+
+func (w *world) fPrices(f foreign) proto4.HostPrices {
+	if f == "a" || f == "c" {
+		return w.peerPrices
+	}
+	return w.prices
+}
+
+// fSigner is the key the host side signs revisions with.
+func (w *world) fSigner(f foreign) types.PrivateKey {
+	if f == "a" || f == "b" {
+		return w.pk2
+	}
+	return w.hk
+}
+
+// pricesByContractHost reports whether the price table verifies under the
+// contract's host key (what RPCSectorRoots must check).
+func (w *world) pricesByContractHost(p proto4.HostPrices) bool {
+	return p.Validate(w.hpk) == nil
 }
